@@ -119,7 +119,13 @@ func TestCheck(t *testing.T) {
 
 // extraAfterHist: additional (scheduler) scenarios of a history property; their
 // coverage is merged into the same evidence file.
-var extraAfterHist = map[string]func(t *testing.T, tier string) (map[string]any, []report.Viol, error){}
+var extraAfterHist = map[string][]extraPart{}
+
+type extraPart func(t *testing.T, tier string) (map[string]any, []report.Viol, error)
+
+// addExtra registers one more part of a history property's check (parts never
+// replace each other: every registered part runs).
+func addExtra(id string, f extraPart) { extraAfterHist[id] = append(extraAfterHist[id], f) }
 
 // isInternalWorker: this process is a sub-worker of some check (not the check itself).
 func isInternalWorker() bool {
@@ -323,13 +329,20 @@ func runHist(t *testing.T, id, tier string, scens []*hist.Scenario) int {
 	if rc != 0 {
 		return rc
 	}
-	if extra := extraAfterHist[id]; extra != nil && os.Getenv("VERIF_NO_SCHED") == "" {
+	for _, extra := range extraAfterHist[id] {
+		if os.Getenv("VERIF_NO_SCHED") != "" {
+			break
+		}
 		ecov, ev, err := extra(t, tier)
 		if err != nil {
-			fmt.Fprintf(os.Stderr, "check %s: scheduler scenarios: harness error: %v\n", id, err)
+			fmt.Fprintf(os.Stderr, "check %s: additional part: harness error: %v\n", id, err)
 			return 2
 		}
 		for k, v := range ecov {
+			if _, dup := cov[k]; dup {
+				fmt.Fprintf(os.Stderr, "check %s: two parts write the coverage field %q\n", id, k)
+				return 2
+			}
 			cov[k] = v
 		}
 		if x, ok := ecov["schedule_executions"].(int); ok {
